@@ -224,7 +224,7 @@ def oracle(chk, pid, labelled, need):
         seen.add(srcs[i])
         chk.case(srcs[i], nontrivial=nontrivial,
                  sample={"label": lab, "program": srcs[i], "expected": ref[1] if ref[0] == "ok" else list(ref)}
-                 if (lab.startswith("witness") or i % 211 == 7) else None)
+                 if (lab.startswith("witness") or lab.startswith("regression") or i % 211 == 7) else None)
         c = classify(ref, r)
         if c is not None:
             failing.append((i, c, r))
